@@ -26,6 +26,7 @@
 from __future__ import annotations
 
 import asyncio
+import functools
 import logging
 import struct
 from collections import defaultdict
@@ -75,6 +76,43 @@ def _bearer_id(bearer: att.Bearer) -> str:
         return f'[0x{bearer.connection.handle:04X}|CID=0x{bearer.source_cid:04X}]'
     else:
         return f'[0x{bearer.handle:04X}]'
+
+
+def _request_handler_in_task(handler):
+    '''
+    Run an async request handler in a task. An exception raised by the handler
+    is answered with an Error Response, so that a request never stays unanswered.
+    '''
+
+    @functools.wraps(handler)
+    def wrapper(self: Server, bearer: att.Bearer, request: att.ATT_PDU) -> None:
+        async def run() -> None:
+            try:
+                await handler(self, bearer, request)
+            except att.ATT_Error as error:
+                logger.debug(f'normal exception returned by handler: {error}')
+                self.send_response(
+                    bearer,
+                    att.ATT_Error_Response(
+                        request_opcode_in_error=request.op_code,
+                        attribute_handle_in_error=error.att_handle,
+                        error_code=error.error_code,
+                    ),
+                )
+            except Exception:
+                logger.exception(color("!!! Exception in handler:", "red"))
+                self.send_response(
+                    bearer,
+                    att.ATT_Error_Response(
+                        request_opcode_in_error=request.op_code,
+                        attribute_handle_in_error=0x0000,
+                        error_code=att.ATT_UNLIKELY_ERROR_ERROR,
+                    ),
+                )
+
+        utils.AsyncRunner.spawn(run())
+
+    return wrapper
 
 
 # -----------------------------------------------------------------------------
@@ -715,7 +753,7 @@ class Server(utils.EventEmitter):
 
         self.send_response(bearer, response)
 
-    @utils.AsyncRunner.run_in_task()
+    @_request_handler_in_task
     async def on_att_find_by_type_value_request(
         self, bearer: att.Bearer, request: att.ATT_Find_By_Type_Value_Request
     ):
@@ -771,7 +809,7 @@ class Server(utils.EventEmitter):
 
         self.send_response(bearer, response)
 
-    @utils.AsyncRunner.run_in_task()
+    @_request_handler_in_task
     async def on_att_read_by_type_request(
         self, bearer: att.Bearer, request: att.ATT_Read_By_Type_Request
     ):
@@ -851,7 +889,7 @@ class Server(utils.EventEmitter):
 
         self.send_response(bearer, response)
 
-    @utils.AsyncRunner.run_in_task()
+    @_request_handler_in_task
     async def on_att_read_request(
         self, bearer: att.Bearer, request: att.ATT_Read_Request
     ):
@@ -880,7 +918,7 @@ class Server(utils.EventEmitter):
             )
         self.send_response(bearer, response)
 
-    @utils.AsyncRunner.run_in_task()
+    @_request_handler_in_task
     async def on_att_read_blob_request(
         self, bearer: att.Bearer, request: att.ATT_Read_Blob_Request
     ):
@@ -928,7 +966,7 @@ class Server(utils.EventEmitter):
             )
         self.send_response(bearer, response)
 
-    @utils.AsyncRunner.run_in_task()
+    @_request_handler_in_task
     async def on_att_read_by_group_type_request(
         self, bearer: att.Bearer, request: att.ATT_Read_By_Group_Type_Request
     ):
@@ -999,7 +1037,7 @@ class Server(utils.EventEmitter):
 
         self.send_response(bearer, response)
 
-    @utils.AsyncRunner.run_in_task()
+    @_request_handler_in_task
     async def on_att_read_multiple_request(
         self, bearer: att.Bearer, request: att.ATT_Read_Multiple_Request
     ):
@@ -1041,7 +1079,7 @@ class Server(utils.EventEmitter):
         response = att.ATT_Read_Multiple_Response(set_of_values=b''.join(values))
         self.send_response(bearer, response)
 
-    @utils.AsyncRunner.run_in_task()
+    @_request_handler_in_task
     async def on_att_read_multiple_variable_request(
         self, bearer: att.Bearer, request: att.ATT_Read_Multiple_Variable_Request
     ):
@@ -1087,7 +1125,7 @@ class Server(utils.EventEmitter):
         )
         self.send_response(bearer, response)
 
-    @utils.AsyncRunner.run_in_task()
+    @_request_handler_in_task
     async def on_att_write_request(
         self, bearer: att.Bearer, request: att.ATT_Write_Request
     ):
